@@ -26,7 +26,7 @@ package client
 // nothing but the response log is written (independence of requests).
 
 //@ func (*rmBranchCommitProcessor).Process
-//@   prop C15
+//@   prop C15 C05
 //@   modifies ghost.all, heap.all
 //@   requires isT(rpcMessage.Body, message.BranchCommitRequest)
 //@   let req := rpcMessage.Body.(message.BranchCommitRequest)
@@ -42,7 +42,7 @@ package client
 //@   ensures frame: wrote_nothing()
 
 //@ func (*rmBranchRollbackProcessor).Process
-//@   prop C15
+//@   prop C15 C05
 //@   modifies ghost.all, heap.all
 //@   requires isT(rpcMessage.Body, message.BranchRollbackRequest)
 //@   let req := rpcMessage.Body.(message.BranchRollbackRequest)
